@@ -356,6 +356,8 @@ TRUSTED_BASE = [
     'hand-written Lean model of the pjrpc functions named in DESIGN.md §0.1 (modelled, not verified); tie = correspondence run + constants translator',
     'harness (generators, adapters, canonicalisation, oracles) and the unverified driver glue (Driver.lean, Lean.Data.Json)',
     'CPython json / inspect / asyncio and third-party libraries behave as recorded in DESIGN.md §2',
+    'harness conventions of DESIGN.md §9b (a new, equal context object per dispatch call marked by identity; library message texts compared as '
+    '"is a string"; cache sizes compared as bounds; validator verdicts supplied per case by calling jsonschema / pydantic directly)',
 ]
 
 
